@@ -31,7 +31,7 @@ int main(int argc, char ** argv) {
 	char p1[512], p2[512], p3[512];
 	snprintf(p1, sizeof p1, "%s/api_s.out", dir); snprintf(p2, sizeof p2, "%s/api_d.out", dir); snprintf(p3, sizeof p3, "%s/api_e.out", dir);
 	char * line;
-	token_pool_init();
+	H_POOL_INIT();
 	while ((line = h_readline(stdin))) {
 		char * f[6];
 		if (h_split(line, ' ', f, 6) < 5) { printf("\n"); fflush(stdout); free(line); continue; }
@@ -74,7 +74,7 @@ int main(int argc, char ** argv) {
 		ds = d_string_new(src); fieldz("valD", mmd_d_string_metavalue_for_key(ds, key)); d_string_free(ds, true);
 		printf("\n"); fflush(stdout);
 		free(src); free(key); free(line);
-		token_pool_drain(); token_pool_init();
+		H_POOL_DRAIN(); H_POOL_INIT();
 	}
 	return 0;
 }
